@@ -388,6 +388,19 @@ def _tiers(c, case):
 
         def replay(m, pname=pname, want=want):
             vals = [[float(model_value(m, e.t)) for e in es] for es in ent]
+            v, d = _replay_vals(vals, pname)
+            if not v:
+                # z3 likes witnesses that sit exactly on math.isclose's tolerance edge, where float rounding decides; try the
+                # neighbouring witness with nearly-equal diagonal entries made exactly equal
+                snapped = [list(t) for t in vals]
+                for t in snapped:
+                    for j in (4, 8):
+                        if abs(t[j] - t[0]) <= 2e-9 * abs(t[0]):
+                            t[j] = t[0]
+                v, d = _replay_vals(snapped, pname)
+            return v, d
+
+        def _replay_vals(vals, pname):
             objs2 = [vol] + [fdtdx.UniformMaterialObject(name=f"O{i}", material=fdtdx.Material(**{prop: tuple(vals[i])}), partial_grid_shape=(1, 1, 1)) for i in range(nobj)]
             got = bool(getattr(ObjectContainer(object_list=objs2, volume_idx=0), pname))
             T = [np.array(v).reshape(3, 3) for v in vals]
